@@ -39,6 +39,20 @@ def _fail(node, why):
     raise Untranslatable(f"ngrid.py line {getattr(node, 'lineno', '?')}: {why}: {ast.unparse(node)[:140]}")
 
 
+EXTRA_ATTRS = {}                                   # attribute -> Lean type, filled by `translate` from __init__
+
+
+def _attr_type(v):
+    """Lean type of a further attribute set by __init__: a list with one entry per listed grid (its weights / points / size),
+    possibly repeated; anything else is not carried."""
+    if isinstance(v, ast.BinOp) and isinstance(v.op, ast.Mult):
+        v = v.left
+    if (isinstance(v, ast.ListComp) and len(v.generators) == 1 and ast.unparse(v.generators[0].iter) == "grid_list"
+            and isinstance(v.elt, ast.Attribute) and isinstance(v.elt.value, ast.Name) and v.elt.value.id == v.generators[0].target.id):
+        return {"weights": "List (List K)", "points": "List (List α)", "size": "List Nat"}.get(v.elt.attr)
+    return None
+
+
 EXC = {"ValueError": "valueError", "TypeError": "typeError", "IndexError": "indexError",
        "NotImplementedError": "notImplementedError"}
 PURE_PROPS = {"num_domains"}                       # properties that cannot raise
@@ -62,6 +76,7 @@ class Tr:
         self.scalars = set()
         self.lambdas = set()
         self.mut = set()
+        self.attrs = set(EXTRA_ATTRS)      # further attributes set by __init__ (carried as fields of the record)
 
     # ---- expressions ---------------------------------------------------------------------
     def is_grid(self, e):
@@ -111,7 +126,7 @@ class Tr:
         if isinstance(e, ast.Attribute):
             base = ast.unparse(e.value)
             if base == "self":
-                if e.attr in ("grid_list", "_num_domains"):
+                if e.attr in ("grid_list", "_num_domains") or e.attr in self.attrs:
                     return f"self.{e.attr}"
                 if e.attr in self.props:
                     return f"(← self.{e.attr})" if self.props[e.attr] else f"self.{e.attr}"
@@ -144,6 +159,8 @@ class Tr:
             _fail(e, "index is not an integer literal")
         if isinstance(e, ast.BinOp):
             a, b = self.expr(e.left), self.expr(e.right)
+            if isinstance(e.op, ast.Mult) and isinstance(e.left, (ast.ListComp, ast.List)):
+                return f"(pyListRepeat {a} {b})"            # [..] * n
             if isinstance(e.op, ast.Mult):
                 ka, kb = self.kind(e.left), self.kind(e.right)
                 if ka == kb == "arr":
@@ -182,6 +199,9 @@ class Tr:
                 sym = {ast.Lt: "<", ast.LtE: "≤", ast.Gt: ">", ast.GtE: "≥"}[op]
                 return f"(decide ({a} {sym} {b}))"
             _fail(e, "unsupported comparison")
+        if (isinstance(e, ast.BoolOp) and isinstance(e.op, ast.Or) and len(e.values) == 2 and ast.unparse(e.values[0]) in self.optional
+                and isinstance(e.values[1], ast.Constant) and isinstance(e.values[1].value, int) and not isinstance(e.values[1].value, bool)):
+            return f"(pyOptOr {self.expr(e.values[0])} {self.expr(e.values[1])})"        # `x or 1` for an Optional[int]
         if isinstance(e, ast.BoolOp):
             return "(" + (" && " if isinstance(e.op, ast.And) else " || ").join(self.expr(v) for v in e.values) + ")"
         if isinstance(e, ast.UnaryOp) and isinstance(e.op, ast.Not):
@@ -541,13 +561,21 @@ def translate():
         raise Untranslatable("MultiDomainGrid.__init__: unexpected signature")
     tr = Tr({"grid_list": "grid_list", "num_domains": "num_domains"}, optional={"num_domains"})
     tr.fields, tr.mutnames = [], set()
+    EXTRA_ATTRS.clear()
+    for n in ast.walk(f):
+        if (isinstance(n, ast.Assign) and len(n.targets) == 1 and isinstance(n.targets[0], ast.Attribute) and ast.unparse(n.targets[0].value) == "self"
+                and n.targets[0].attr not in ("grid_list", "_num_domains")):
+            ty = _attr_type(n.value)
+            if ty is None:
+                _fail(n, "__init__ sets a further attribute whose value is not a per-grid list of weights / points / sizes")
+            EXTRA_ATTRS[n.targets[0].attr] = ty
     body = tr.block(f.body, 2)
-    if [n for n, _ in tr.fields] != ["grid_list", "_num_domains"]:
-        raise Untranslatable(f"MultiDomainGrid.__init__ sets the attributes {[n for n, _ in tr.fields]}, expected grid_list, _num_domains")
+    if [n for n, _ in tr.fields][:2] != ["grid_list", "_num_domains"] or [n for n, _ in tr.fields][2:] != list(EXTRA_ATTRS):
+        raise Untranslatable(f"MultiDomainGrid.__init__ sets the attributes {[n for n, _ in tr.fields]}, expected grid_list, _num_domains (and carried further ones)")
     out += ["/-- The attributes set by `MultiDomainGrid.__init__`. -/",
             "structure MultiDomainGrid (α K : Type) where",
             "  grid_list : List (Grid α K)",
-            "  _num_domains : Option Nat", "",
+            "  _num_domains : Option Nat"] + [f"  {n} : {ty}" for n, ty in EXTRA_ATTRS.items()] + ["",
             "/-- `MultiDomainGrid.__init__(grid_list, num_domains)`. -/",
             "def MultiDomainGrid.init (grid_list : List (Grid α K)) (num_domains : Option Nat) :",
             "    Except Err (MultiDomainGrid α K) := do"]
@@ -574,10 +602,11 @@ def translate():
             out.append(f"def MultiDomainGrid.{name} {inst}(self : MultiDomainGrid α K) : Except Err ({ty}) := do")
             out += body
         else:
-            if len(body) != 1 or not body[0].strip().startswith("return "):
-                raise Untranslatable(f"property {name}: expected a single return")
+            if not body or not body[-1].strip().startswith("return ") or not all(l.strip().startswith("let ") for l in body[:-1]):
+                raise Untranslatable(f"property {name}: expected bindings followed by a return")
             out.append(f"def MultiDomainGrid.{name} {inst}(self : MultiDomainGrid α K) : {ty} :=")
-            out.append("  " + body[0].strip()[len("return "):])
+            out += ["  " + l.strip() for l in body[:-1]]
+            out.append("  " + body[-1].strip()[len("return "):])
         out.append("")
         props[name] = raises
 
